@@ -112,6 +112,22 @@ func c17Check(c c17Case) *Violation {
 		c.Recs = recs
 	}
 	switch c.Mode {
+	case "detect":
+		// the format a file name asks for is named by its extension: the text behind the last dot of the last path element
+		base := c.Def[strings.LastIndexByte(c.Def, '/')+1:]
+		ext := ""
+		if i := strings.LastIndexByte(base, '.'); i >= 0 {
+			ext = base[i+1:]
+		}
+		want := map[string]seqio.FileType{"fasta": seqio.FastaFile, "fastq": seqio.FastqFile, "gb": seqio.GenBankFile, "genbank": seqio.GenBankFile, "emb": seqio.EMBLFile, "embl": seqio.EMBLFile}[ext]
+		var got seqio.FileType
+		if pi := guard(func() { got = seqio.Detect(c.Def) }); pi != nil {
+			return panicViolation("Detect", pi)
+		}
+		if got != want {
+			return viol("detect", "Detect(%q) = %d, the extension %q names %d", c.Def, got, ext, want)
+		}
+		return nil
 	case "fuzz":
 		return c17Fuzz(c.Input)
 	case "roundtrip":
@@ -424,6 +440,27 @@ func TestC17(t *testing.T) {
 		}
 	}
 	egb.done(true)
+	// file names: every combination of up to three dotted parts from format names and other words, with directories
+	edt := enumPart(t, c17Prop, st, "detect-file-names")
+	words := []string{"fasta", "gb", "genbank", "fastq", "embl", "emb", "txt", "3", "FASTA", "fa", "", "x"}
+	for _, a := range words {
+		for _, b := range words {
+			for _, c3 := range words {
+				for _, dir := range []string{"", "out.gb/", "a.fasta/b/", "./"} {
+					name := dir + "plasmid"
+					for _, w := range []string{a, b, c3} {
+						if w != "" {
+							name += "." + w
+						}
+					}
+					if !edt.try(c17Case{Mode: "detect", Def: name}) {
+						return
+					}
+				}
+			}
+		}
+	}
+	edt.done(true)
 	// deliveries: the same streams through readers that hand the bytes over in other portions
 	ed := enumPart(t, c17Prop, st, "deliveries")
 	dl := []int{0, 1, 69, 70, 71, 140, 700, 3900, 4100}
